@@ -157,11 +157,16 @@ Proof. exact drift_history. Qed.
 Print Assumptions C11_between_epochs_drift_partial.
 
 (* how the budget evolves (by definition) *)
-Theorem C11_budget_rule : forall st B o st',
-  budget_next st B o st' =
+Theorem C11_budget_rule : forall cfg st B o st',
+  let topup id := match s_conn st id with Some (d, v) => upd2 B d v (B d v + 2) | None => B end in
+  let locktokens owner d dur :=
+    match find_existing st owner d dur (ids_upto (s_last st)) with Some id => topup id | None => B end in
+  budget_next cfg st B o st' =
   match o with
   | OEpoch _ _ => conn_cnt st'
-  | OTopUp _ id _ => match s_conn st id with Some (d, v) => upd2 B d v (B d v + 2) | None => B end
+  | OTopUp _ id _ => topup id
+  | OLockTokens owner d _ dur => locktokens owner d dur           (* MsgLockTokens tops up a matching lock if there is one *)
+  | OLockAndDelegate owner d _ _ => locktokens owner d (c_unb cfg)
   | _ => B
   end.
 Proof. intros. destruct o; reflexivity. Qed.
@@ -202,16 +207,18 @@ Definition nv_ops := [OLock 0 0 3 100; OLock 1 0 3 100; OLock 2 0 3 150;
   ODelegate 0 1 0; ODelegate 1 2 0; ODelegate 2 3 0; OEpoch [(0, MDirect P18)] [];
   OUndelegate 0 1; OUndelegate 1 2; OUnbondLock 0 1; OAdvance 60; OBeginUnlock 2 3; OWithdraw 1; OAdvance 40; OCleanup;
   OTopUp 2 3 7; OUndelegateAndUnbond 2 3 4; OBeginUnlockAll 2; OForceUnlock 2 3; OBeginUnlockPartial 2 3 1;
-  OLock 2 0 9 10; OBeginUnlockPartial 2 5 4; OForceUnlock 2 5].
+  OLock 2 0 9 10; OBeginUnlockPartial 2 5 4; OForceUnlock 2 5;
+  OLockTokens 1 0 11 100; OLockTokens 1 0 5 100; OLockAndDelegate 0 0 8 1; OCreateAndDelegate 0 0 20 0].
 Example C11_nonvacuous :
   wf_cfg nv_cfg /\ reachable nv_cfg (run nv_cfg nv_init nv_ops) /\
   let st := run nv_cfg nv_init nv_ops in
   s_conn st 3 = Some (0, 0) /\ s_synths st 3 = [mkSynth Staking 0 0 0 100] /\
   s_synths st 4 = [mkSynth Unstaking 0 0 1200 100] /\ s_locks st 1 = None /\ s_locks st 5 = None /\
-  s_locks st 6 = Some (mkLock 2 0 4 10 1110) /\
-  s_deleg st 0 0 = Some (4 * P18) /\ s_supply st + s_offset st = 7000000 - 500 /\ s_supply st = 7000004 /\
+  s_locks st 6 = Some (mkLock 2 0 4 10 1110) /\ s_locks st 2 = Some (mkLock 1 0 19 100 0) /\
+  s_conn st 7 = Some (0, 1) /\ s_conn st 8 = Some (0, 0) /\
+  s_deleg st 0 0 = Some (14 * P18) /\ s_supply st + s_offset st = 7000000 - 500 /\ s_supply st = 7000018 /\
   init_ok [(0, mkVal 1000000 (1000000 * P18)); (1, mkVal 5 (5 * P18))] [(0, P18)] /\
-  snd (grun nv_cfg nv_init (fun _ _ => 0) nv_ops) 0 0 = 5 /\ conn_val nv_cfg st 0 0 = 3.
+  snd (grun nv_cfg nv_init (fun _ _ => 0) nv_ops) 0 0 = 5 /\ conn_val nv_cfg st 0 0 = 13.
 Proof.
   split; [unfold wf_cfg; vm_compute; repeat split; discriminate|].
   split; [do 7 eexists; split; [|reflexivity]; reflexivity|].
